@@ -1795,10 +1795,33 @@ func ruleRegionSticky(p *Prog, r *Result) {
 				continue
 			}
 			var fetch *ssa.Call
+			outer := fn // the method itself; fn becomes the function holding the fetch loop (the method or a helper of the plan)
+			var helperSites []*ssa.Call
 			for _, s := range p.storage().ByFn[fn] {
 				if s.Method == "Cursor.Next" {
 					fetch, _ = s.Instr.(*ssa.Call)
 				}
+			}
+			if fetch == nil {
+				// the fetch loop may live in a helper method of the same plan (`p.fetchWindow(buf)`)
+				allInstrs(outer, func(in ssa.Instruction) {
+					c, ok := in.(*ssa.Call)
+					if !ok {
+						return
+					}
+					h := c.Call.StaticCallee()
+					if h == nil || h.Signature.Recv() == nil || namedOf(h.Signature.Recv().Type()) != t {
+						return
+					}
+					for _, s := range p.storage().ByFn[h] {
+						if s.Method == "Cursor.Next" {
+							if fc, ok := s.Instr.(*ssa.Call); ok {
+								fetch, fn = fc, h
+								helperSites = append(helperSites, c)
+							}
+						}
+					}
+				})
 			}
 			if fetch == nil {
 				r.hit(tn+"."+mn+"|fetch", p.Pos(fn.Pos()), "no Cursor.Next fetch found")
@@ -1862,11 +1885,23 @@ func ruleRegionSticky(p *Prog, r *Result) {
 			}
 			// (b) the fetch is guarded by the flag
 			n++
-			guarded := false
-			for _, a := range dominatingAtoms(fetch.Block()) {
-				if bv, isB := constBool(a.Y); isB && flagField != "" && isFieldLoad(a.X, tn, flagField) {
-					if (a.Op == token.EQL && !bv) || (a.Op == token.NEQ && bv) {
-						guarded = true
+			guardedAt := func(b *ssa.BasicBlock) bool {
+				for _, a := range dominatingAtoms(b) {
+					if bv, isB := constBool(a.Y); isB && flagField != "" && isFieldLoad(a.X, tn, flagField) {
+						if (a.Op == token.EQL && !bv) || (a.Op == token.NEQ && bv) {
+							return true
+						}
+					}
+				}
+				return false
+			}
+			guarded := guardedAt(fetch.Block())
+			if !guarded && len(helperSites) > 0 {
+				// guarded at every call of the helper instead
+				guarded = true
+				for _, hc := range helperSites {
+					if !guardedAt(hc.Block()) {
+						guarded = false
 					}
 				}
 			}
@@ -1919,15 +1954,17 @@ func ruleRegionSticky(p *Prog, r *Result) {
 			// (c) never set back here
 			n++
 			reset := ""
-			allInstrs(fn, func(in ssa.Instruction) {
-				if st, ok := in.(*ssa.Store); ok {
-					if o, fl, _, ok := fieldOfAddr(st.Addr); ok && o == t && fl == flagField {
-						if bv, isB := constBool(st.Val); !isB || !bv {
-							reset = p.InstrPos(st)
+			for _, f2 := range []*ssa.Function{fn, outer} {
+				allInstrs(f2, func(in ssa.Instruction) {
+					if st, ok := in.(*ssa.Store); ok {
+						if o, fl, _, ok := fieldOfAddr(st.Addr); ok && o == t && fl == flagField {
+							if bv, isB := constBool(st.Val); !isB || !bv {
+								reset = p.InstrPos(st)
+							}
 						}
 					}
-				}
-			})
+				})
+			}
 			r.add(reset == "", fmt.Sprintf("%s.%s|no-reset", tn, mn), p.Pos(fn.Pos()), firstNonEmpty(map[bool]string{true: "the region flag is set back at " + reset}[reset != ""], "the region flag is only ever set"))
 		}
 		// Init resets
